@@ -28,7 +28,16 @@ var wl *wlState
 
 func wlRender(f WLFile) string {
 	var b strings.Builder
-	fmt.Fprintf(&b, "enable: %v\n\nip_white_list:\n", f.Enable)
+	if !f.OmitEnable {
+		fmt.Fprintf(&b, "enable: %v\n\n", f.Enable)
+	} else {
+		b.WriteString("# enable: true\n\n")
+	}
+	if f.OmitList {
+		b.WriteString("# ip_white_list:\n")
+		return b.String()
+	}
+	b.WriteString("ip_white_list:\n")
 	for _, ip := range f.IPs {
 		fmt.Fprintf(&b, "  - %s\n", ip)
 	}
@@ -180,6 +189,22 @@ func genC18(g *Gen) {
 			}
 		}
 		nf.IPs = ips
+		nf.OmitEnable, nf.OmitList = false, false
+		switch {
+		case g.R.Pct(20) && len(nf.IPs) > 0:
+			// duplicate entries (the admitted set is still the set of distinct addresses)
+			for k := g.R.Range(1, 2); k > 0; k-- {
+				at := g.R.Intn(len(nf.IPs) + 1)
+				dup := nf.IPs[g.R.Intn(len(nf.IPs))]
+				nf.IPs = append(nf.IPs[:at], append([]string{dup}, nf.IPs[at:]...)...)
+			}
+		case g.R.Pct(8):
+			// the list block is deleted / commented out: nobody is listed any more
+			nf.IPs, nf.OmitList = nil, true
+		case g.R.Pct(8):
+			// the enable line is deleted: the whitelist is off
+			nf.Enable, nf.OmitEnable = false, true
+		}
 		wlp.Edits = append(wlp.Edits, WLEdit{Kind: g.R.Pick(kinds), File: nf})
 		cur = nf
 	}
